@@ -150,7 +150,9 @@ def run_check(prop, module, tier, seed, level, technique_note):
     viol = [o for o in ctx.obs if not o["ok"]]
     new = [o for o in viol if o["key"] not in known_keys]
     kn = [o for o in viol if o["key"] in known_keys]
-    evdir = os.path.join(VERIF, "evidence")
+    # evidence/ describes runs against /repo itself; self-test runs against a scratch copy (MINA_REPO) write elsewhere
+    evdir = os.path.join(VERIF, "evidence") if os.path.realpath(extract.REPO) == "/repo" \
+        else os.path.join(VERIF, ".cache", "scratch-evidence")
     os.makedirs(os.path.join(evdir, "replay"), exist_ok=True)
     import glob as _glob
     for old_rp in _glob.glob(os.path.join(evdir, "replay", "%s-*.json" % prop)):
